@@ -3,6 +3,7 @@ package main_test
 // C08 — bias switches and apply-probabilities behave as documented.
 
 import (
+	"encoding/json"
 	"fmt"
 	"math"
 	"testing"
@@ -146,6 +147,18 @@ func judgeC08(c C08Case) *Fail {
 	// (a) shape: one entry per non-disabled requested bias, in order, echoing name and probability
 	if len(base.resp.Biases) != len(en) {
 		return failf("one-entry-per-enabled-bias", "%d enabled biases requested, response lists %d: %s", len(en), len(base.resp.Biases), mustJSON(base.resp.Biases))
+	}
+	// ... literally: every entry carries the keys, whatever their values (a probability of 0 is echoed as 0, not left out)
+	var rawEntries struct {
+		Biases []map[string]json.RawMessage `json:"biases"`
+	}
+	_ = json.Unmarshal([]byte(base.out.Body), &rawEntries)
+	for k, e := range rawEntries.Biases {
+		for _, key := range []string{"name", "applyProbability"} {
+			if _, ok := e[key]; !ok {
+				return failf("echo-name-probability", "entry %d of the response has no %q: %s", k, key, mustJSON(e))
+			}
+		}
 	}
 	inner := false
 	for k, i := range en {
